@@ -646,6 +646,10 @@ func (w *World) CheckCleanFailure(out *Outcome, o *Obs) []Violation {
 		return vs // armed but not reached
 	}
 	if w.hasSubst() {
+		// whether a substituting start succeeds is C03's business; that it does not panic is ours
+		if o.Panic != "" {
+			vs = append(vs, v("C09", "start-up-panic", "", fmt.Sprintf("Run panicked instead of returning an error: %s [%s]", o.Panic, o.PanicStk)))
+		}
 		return vs
 	}
 	cfgBad, cfgWhy := w.ConfigDemand()
